@@ -142,9 +142,24 @@ func c03Push(p *vfProcess, class int, id int) {
 // a symbolic class. At every pick the real Actor.ProcessRun must take the oldest message of the highest
 // non-empty class as the queues stand at that moment - compared step by step with four model FIFOs.
 func VerifC03ActorArrivals() {
+	b, p := newVfActor()
+	c03Arrivals(p, b.ProcessRun, func(f func(int)) { b.onHandle = f }, func() []int { return b.order }, true)
+}
+
+// VerifC03SupervisorArrivals: the same for the run loop of act.Supervisor (its own copy of the dequeue
+// loop): regular messages for the supervisor's HandleMessage in the urgent/system/main queues; log
+// messages are taken last and dropped without a callback.
+func VerifC03SupervisorArrivals() {
+	lib.VerifClockAdvance(0)
+	e := c08Setup(SupervisorTypeOneForOne, SupervisorStrategyPermanent, false, 1, 10, nil, true)
+	c03Arrivals(e.p, e.b.ProcessRun, func(f func(int)) { e.b.onHandle = f }, func() []int { return e.b.order }, false)
+}
+
+// c03Arrivals is the body shared by the run loops: logHandled says whether a log message reaches a
+// handler (Actor.HandleLog) or is popped and dropped (Supervisor).
+func c03Arrivals(p *vfProcess, run func() error, hook func(func(int)), got func() []int, logHandled bool) {
 	m := lib.VerifParam("messages", 2)
 	a := lib.VerifParam("arrivals", 1)
-	b, p := newVfActor()
 	var model [4][]int
 	for i := 0; i < m; i++ {
 		c := lib.VerifPick("class", 4)
@@ -161,15 +176,15 @@ func VerifC03ActorArrivals() {
 		at[k] = lib.VerifPick("during", m+a)
 		cl[k] = lib.VerifPick("aclass", 4)
 	}
-	b.onHandle = func(n int) {
+	hook(func(n int) {
 		for k := 0; k < a; k++ {
 			if at[k] == n {
 				c03Push(p, cl[k], 100+k)
 			}
 		}
-	}
-	err := b.ProcessRun()
-	lib.VerifAssert(err == nil, "actor keeps running")
+	})
+	err := run()
+	lib.VerifAssert(err == nil, "the process keeps running")
 	// model run
 	var want []int
 	for {
@@ -179,6 +194,11 @@ func VerifC03ActorArrivals() {
 		}
 		if c == 4 {
 			break
+		}
+		if c == 3 && !logHandled {
+			// popped and dropped: no handler runs, nothing can arrive "during" it
+			model[c] = model[c][1:]
+			continue
 		}
 		n := len(want)
 		want = append(want, model[c][0])
@@ -193,9 +213,10 @@ func VerifC03ActorArrivals() {
 			}
 		}
 	}
-	lib.VerifAssert(len(b.order) == len(want), "every message queued before or during the run is handled exactly once")
+	order := got()
+	lib.VerifAssert(len(order) == len(want), "every message queued before or during the run is handled exactly once")
 	for i := range want {
-		lib.VerifAssert(i < len(b.order) && b.order[i] == want[i], "each pick takes the oldest message of the highest non-empty class at that moment")
+		lib.VerifAssert(i < len(order) && order[i] == want[i], "each pick takes the oldest message of the highest non-empty class at that moment")
 	}
 	lib.VerifReach("order with arrivals compared")
 }
